@@ -245,7 +245,7 @@ def gen_cases(ctx, tables):
         by_kind = {}
         for name, k in sorted(tables[tn].items()):
             by_kind.setdefault(k, []).append(name)
-        n = ctx.scale(220, 5000) if tn == "A" else ctx.scale(120, 2500)
+        n = ctx.scale(500, 5000) if tn == "A" else ctx.scale(250, 2500)
         for _ in range(n):
             tree = gen_tree(rng, by_kind, 0, maxdepth)
             if _count(tree) > 200:
